@@ -238,6 +238,8 @@ pub fn alphabet(name: &str) -> Vec<&'static str> {
         "multi" => vec!["\u{00A0}", "ä", "€", "😀", "ö", "ß"],
         // clusters: CRLF (ws cluster in grapheme mode), e + combining acute, flag, ZWJ family
         "cluster" => vec!["\r\n", "e\u{0301}", "🇩🇪", "👨\u{200D}👩", "a\u{0308}", "x"],
+        // two characters that share their first code point (a code-point-wise common prefix cuts through a cluster)
+        "share" => vec![" ", "e\u{0301}", "e", "\u{0301}", "e\u{0301}\u{0302}", "x"],
         // tab as whitespace, ideographic space is in "wide"
         "tab" => vec!["\t", "x", "y", "z", "u", "v"],
         // whitespace functions: space, tab, NBSP (2-byte ws), ideographic space (3-byte ws), a, b, ZWSP (non-ws), e+acute
